@@ -25,6 +25,7 @@ func main() {
 	verif := flag.String("verif", "", "verif directory (default: directory above the binary)")
 	only := flag.String("only", "", "print only the obligation rule|key (replay)")
 	list := flag.Bool("list", false, "list all obligations")
+	dump := flag.String("dump-anchors", "", "write the anchor fingerprint table of the repository to this file and exit")
 	flag.Parse()
 	if *tier != "thorough" {
 		*tier = "quick"
@@ -32,6 +33,15 @@ func main() {
 	if *verif == "" {
 		exe, _ := os.Executable()
 		*verif = filepath.Dir(filepath.Dir(exe))
+	}
+	core.SetAnchorDir(*verif)
+	if *dump != "" {
+		c := core.Load(core.Config{RepoDir: *repo, Tier: "quick"})
+		if err := c.DumpAnchors(*dump); err != nil {
+			fmt.Fprintln(os.Stderr, err)
+			os.Exit(2)
+		}
+		return
 	}
 	seed, _ := strconv.ParseInt(os.Getenv("VERIF_SEED"), 10, 64)
 	chk := rules.Registry[*prop]
